@@ -287,7 +287,15 @@ def poly_of(e, varname):
             for i, x in a.items():
                 for j, y in b.items(): out[i + j] = out.get(i + j, 0) + x * y
             return out
-        if e['op'] == 'Div' and list(b) == [0]: return {k: v / b[0] for k, v in a.items()}
+        if e['op'] == 'Div' and list(b) == [0] and b[0] != 0 and b[0].denominator == 1:
+            # integer division: exact only if the numerator is a multiple of the divisor for EVERY integer value of the variable.
+            # An integer-coefficient polynomial is periodic modulo d, so checking one period decides this for all values.
+            d = int(b[0])
+            if any(c.denominator != 1 for c in a.values()): raise ValueError('division of a non-integer polynomial')
+            for r in range(abs(d)):
+                if sum(int(c) * r ** k for k, c in a.items()) % d != 0:
+                    raise ValueError('integer division `%s / %d` truncates (e.g. when %s = %d mod %d)' % (pp(e['lhs'])[:40], d, varname, r, abs(d)))
+            return {k: v / b[0] for k, v in a.items()}
     raise ValueError('not a polynomial: ' + pp(e)[:60])
 
 def padd(a, b):
@@ -366,7 +374,11 @@ def rule_random_graph(F, R):
                     while th['k'] == 'Block' and not th['stmts']: th = th['expr']
                     while el['k'] == 'Block' and not el['stmts']: el = el['expr']
                     pu, pd = poly_of(th, 'vertices'), poly_of(el, 'vertices')
-                except (ValueError, TypeError):
+                except (ValueError, TypeError) as ex:
+                    if 'truncates' in str(ex):
+                        found = True
+                        R.count('L:complete-count'); R.obligation(False, 'L complete')
+                        R.violation(G + 'main / L / --complete', 'L', '--complete edge count: %s' % ex, e['loc'])
                     continue
                 found = True
                 ok = pu == {2: Fraction(1, 2), 1: Fraction(-1, 2)} and pd == {2: Fraction(1), 1: Fraction(-1)}
